@@ -421,6 +421,13 @@ def render(e, pieces=None):
 class Expr(str):
     """canonical expression text that also carries the string-literal piece lists (ignored by ==)"""
     pieces = ()
+    ast = None
+
+
+def mk_expr(ast):
+    s = Expr(render(ast))
+    s.ast = ast
+    return s
 
 
 def expr(c):
@@ -542,7 +549,7 @@ def parse_type(c, param=False):
             if w == "ARRAY" and not param:
                 raise Unparsed("ARRAY without bounds", tok)
             if c.norm.default_bounds and w != "ARRAY":
-                b = (Expr("0"), Expr("?"))
+                b = (mk_expr(("int", 0)), mk_expr(("const", "?")))
         t = ("agg", w, b[0] if b else None, b[1] if b else None, optional, unique, base)
         if order == "UO":
             NONSTANDARD["UNIQUE OPTIONAL order"] = NONSTANDARD.get("UNIQUE OPTIONAL order", 0) + 1
@@ -671,7 +678,7 @@ def parse_stmt(c):
                 if c.accept_kw("BY"):
                     by = expr(c)
                 elif c.norm.default_increment:
-                    by = Expr("1")
+                    by = mk_expr(("int", 1))
                 incr = (v, lo, hi, by)
             wh = un = None
             if c.accept_kw("WHILE"):
